@@ -16,7 +16,7 @@ static MCase decode(Src &s) {
     for (size_t i = 0; i < c.table.size(); i++) c.nReaders.push_back((int) s.weighted({5, 3, 2}));
     std::vector<RefPattern> refs;
     for (auto &p : c.table) refs.push_back(refParsePattern(p.text));
-    int nu = (int) s.weighted({1, 3, 3, 2, 1, 1}) + 1;
+    int nu = s.prob(1, 400) ? (int) s.range(257, 300) : (int) s.weighted({1, 3, 3, 2, 1, 1}) + 1;   // now and then more units than 8 bits count
     std::string prevEff; bool prevCommon = false; int prevMatched = -1;
     for (int u = 0; u < nu; u++) {
         Unit un;
@@ -73,7 +73,7 @@ static std::string describe(const MCase &c) {
 }
 
 static std::string runCase(const MCase &c, bool *nt = nullptr) {
-    InstCfg k; k.bufLen = c.text.size() + 8; k.queueLen = 16; k.heapLen = 1024;
+    InstCfg k; k.bufLen = c.text.size() + 8; k.queueLen = std::max(16, (int) c.units.size() + 4); k.heapLen = std::max((size_t) 1024, c.text.size() + 2 * c.units.size() + 64);   // room for the text of one -113 per unit
     for (size_t i = 0; i < c.table.size(); i++) {
         Cmd cmd; cmd.pattern = c.table[i].text;
         for (int r = 0; r < c.nReaders[i]; r++) cmd.script.readers.push_back(Reader());
